@@ -433,3 +433,23 @@ Proof.
   destruct (cob_src (fst p)) as [s'|] eqn:Es; [|discriminate]. destruct (cob_tgt (fst p)) as [t'|] eqn:Et; [|discriminate].
   injection B4 as B4. apply andb_true_iff in B4. destruct B4. exists s', t'. now repeat split.
 Qed.
+
+(* ---------- small facts ---------- *)
+(* keys stay distinct under eliminate *)
+Lemma eliminate_nodup c k0 k1 c' :
+  cpx_eliminate c k0 k1 = Some c' -> NoDup (map vkey (c_verts c)) -> NoDup (map vkey (c_verts c')).
+Proof.
+  intros E Hn. apply eliminate_spec in E.
+  destruct E as (a & ainv & v0 & v1 & _ & _ & _ & _ & _ & _ & _ & _ & _ & Hk & _). rewrite Hk.
+  now apply NoDup_filter, NoDup_filter.
+Qed.
+
+(* connect_edges computes the sign of D(1, f) from weight(k0) - left.deg_shift.0 while the homological degree of k0
+   is weight(k0) + left.deg_shift.0: the same parity, so the sign is (-1)^deg(k0) as the comment in the code says *)
+Lemma connect_sign_is_degree (left : cpx) (k0 : tkey) :
+  sign_of_parity (Z.of_nat (key_weight k0) - fst (c_shift left)) = sign_of_parity (key_deg left k0).
+Proof.
+  unfold sign_of_parity, key_deg. replace (Z.even (Z.of_nat (key_weight k0) - fst (c_shift left)))
+    with (Z.even (Z.of_nat (key_weight k0) + fst (c_shift left))); [reflexivity|].
+  rewrite Z.even_add, Z.even_sub. reflexivity.
+Qed.
